@@ -172,29 +172,40 @@ def parse_sector_map(out):
 
 
 # ---------------------------------------------------------------- cat
-def parse_cat(out, ui_hint=None):
-    """Returns dict(title_line=..., header=[lines], files=[(dir or None, name, locked)] in printed
-    order, groups=[[...current dir...],[...others...]]).  Works on the 20-column cell grid."""
+_OPTS = {0: b'off', 1: b'LOAD', 2: b'RUN', 3: b'EXEC'}
+
+
+def parse_cat(out):
+    """Returns dict(title, cycle, option, option_desc, density ('single'|'double'), drive, files).
+    files = [(dir or None, name, locked)] in printed order; dir None = printed without a directory
+    prefix (i.e. in the current directory).  Works on the 20-column cell grid; never looks at
+    exact spacing inside a cell."""
     lines = out.split(b'\n')
-    # header ends at the first empty line after the "Dir"/"Directory" line
-    hdr_end = None
-    for i, ln in enumerate(lines):
-        if re.search(rb'(Dir\.|Directory) :', ln):
-            hdr_end = i
-            break
-    if hdr_end is None:
-        raise ParseError('cat: no directory line in %r' % out[:200])
-    header = lines[:hdr_end + 1]
-    body = lines[hdr_end + 1:]
+    try:
+        blank = lines.index(b'')
+    except ValueError:
+        raise ParseError('cat: no blank line after header')
+    header = lines[:blank]
+    body = lines[blank + 1:]
+    h = b'\n'.join(header)
+    m = re.search(rb'^ ?(.*) ?\(([0-9A-Fa-f]{2})\)', header[0], re.S)
+    if not m:
+        raise ParseError('cat: title line %r' % header[0])
+    title = m.group(1).rstrip(b' ')
+    cycle = int(m.group(2), 16)
+    mo = re.search(rb'Option (\d) \((\w+)\)', h)
+    if not mo:
+        raise ParseError('cat: no Option')
+    if re.search(rb'Double density|\bMFM\b', h[len(m.group(0)) - 0:] if False else h.replace(m.group(1), b'', 1)):
+        dens = 'double'
+    elif re.search(rb'Single density|\bFM\b', h.replace(m.group(1), b'', 1)):
+        dens = 'single'
+    else:
+        raise ParseError('cat: no density')
+    md = re.search(rb'Drive (\d+[A-H]?)', h.replace(m.group(1), b'', 1))
     files = []
-    groups = [[]]
-    seen_file = False
     for ln in body:
         if re.match(rb'^\d+ files of \d+ on \d+ tracks$', ln) or ln == b'No file':
-            continue
-        if ln.strip() == b'':
-            if seen_file and groups[-1]:
-                groups.append([])
             continue
         for j in range(0, len(ln), 20):
             cell = ln[j:j + 20]
@@ -205,18 +216,13 @@ def parse_cat(out, ui_hint=None):
                 raise ParseError('cat cell %r' % cell)
             nm = toks[0]
             locked = len(toks) == 2
-            # "D.NAME" only when printed with a directory prefix; names never contain '.'
-            # in our generated catalogues unless stated
-            if len(nm) >= 2 and nm[1:2] == b'.' and not cell.startswith(b'    ' if False else b'\xff'):
+            if len(nm) >= 3 and nm[1:2] == b'.':
                 d, n = nm[0:1], nm[2:]
             else:
                 d, n = None, nm
-            # Distinguish "D.NAME" from a current-directory name by indentation: current-directory
-            # names are preceded by two extra blanks.
-            files.append((d, n, locked, cell))
-            groups[-1].append((d, n, locked))
-            seen_file = True
-    return {'header': header, 'files': files, 'groups': [g for g in groups if g]}
+            files.append((d, n, locked))
+    return {'title': title, 'cycle': cycle, 'option': int(mo.group(1)), 'option_desc': mo.group(2),
+            'density': dens, 'drive': md.group(1) if md else None, 'files': files}
 
 
 def parse_show_titles(out):
